@@ -19,3 +19,38 @@ if "SEEDED_TABLE" in s:
 else:
     s = re.sub(r"<!-- seeded:begin -->.*?<!-- seeded:end -->", lambda _: "<!-- seeded:begin -->\n" + tbl + "\n<!-- seeded:end -->", s, flags=re.S)
 open(p, "w").write(s)
+
+
+# ---- per-property status table (theorem counts, partial / open statements, correspondence size)
+import glob
+srows = ["| id | theorems pinned | partial (proved under a stated restriction) | open (full statement visible, not proved) | historical refutations (pre-repair code) | quick cases x profiles |", "|---|---|---|---|---|---|"]
+for i in range(1, 21):
+    pid = "C%02d" % i
+    pf = os.path.join(ROOT, "coq", "props", pid + ".v")
+    if not os.path.exists(pf):
+        srows.append("| %s | - | | | | |" % pid)
+        continue
+    src = re.sub(r"\(\*.*?\*\)", "", open(pf).read(), flags=re.S)
+    thms = re.findall(r"^(?:Theorem|Lemma)\s+(\w+)", src, re.M)
+    partial = [t for t in thms if "partial" in t]
+    hist = [t for t in thms if "refuted" in t or "historical" in t.lower() or "_v0_" in t or "witness" in t]
+    openl = re.findall(r"^Definition\s+(\w+_full)\b", src, re.M)
+    ev = os.path.join(ROOT, "evidence", pid + ".json")
+    cs = ""
+    if os.path.exists(ev):
+        try:
+            e = json.load(open(ev))
+            c = e["coverage"].get("correspondence", {})
+            cs = "%s x %d" % (c.get("cases", "?"), len(c.get("profiles", [])))
+        except Exception:
+            pass
+    def short(l):
+        return ", ".join(x.replace(pid + "_", "") for x in l) or "-"
+    srows.append("| %s | %d | %s | %s | %s | %s |" % (pid, len(thms), short(partial), short(openl), short(hist), cs))
+stbl = "\n".join(srows)
+s2 = open(p).read()
+if "STATUS_TABLE" in s2:
+    s2 = s2.replace("STATUS_TABLE", "<!-- status:begin -->\n" + stbl + "\n<!-- status:end -->")
+else:
+    s2 = re.sub(r"<!-- status:begin -->.*?<!-- status:end -->", lambda _: "<!-- status:begin -->\n" + stbl + "\n<!-- status:end -->", s2, flags=re.S)
+open(p, "w").write(s2)
